@@ -1595,3 +1595,409 @@ Proof.
   rewrite E in *. cbn [p_size p_groups p_zoned] in *. rewrite <- Ev. cbn [sp_summary positions int_digits frac_digits].
   repeat split; try assumption. now rewrite <- Ev in Hz.
 Qed.
+
+Require SR.Spec.SchemaTruth.
+
+(* ================= the bridge to the abstract pictures of the codec properties (Spec/SchemaTruth.v) ================= *)
+Notation ddf := SchemaTruth.dec_digits_fuel.
+Notation dec_text := SchemaTruth.dec_text.
+Notation prun := SchemaTruth.run.
+Notation pic_text := SchemaTruth.pic_text.
+
+(* ---- the decimal numeral of k: ASCII digits, not empty, value k ---- *)
+Lemma dd_app f : forall n acc, ddf f n acc = ddf f n [] ++ acc.
+Proof.
+  induction f as [|f IH]; intros n acc; [reflexivity|]. cbn [SchemaTruth.dec_digits_fuel]. cbv zeta.
+  destruct (n / 10 =? 0); [reflexivity|].
+  rewrite (IH (n / 10) ((48 + n mod 10) :: acc)), (IH (n / 10) [48 + n mod 10]).
+  now rewrite <- app_assoc.
+Qed.
+
+Lemma cv_app n a b : cv n (a ++ b) = cv (cv n a) b.
+Proof. unfold cv. apply fold_left_app. Qed.
+
+Lemma dd_val f : forall n, (N.to_nat n < f)%nat -> cv 0 (ddf f n []) = n.
+Proof.
+  induction f as [|f IH]; intros n Hn; [lia|]. cbn [SchemaTruth.dec_digits_fuel]. cbv zeta.
+  pose proof (N.div_mod n 10 ltac:(lia)) as Hdm.
+  destruct (n / 10 =? 0) eqn:E.
+  - apply N.eqb_eq in E. cbn [cv fold_left]. lia.
+  - apply N.eqb_neq in E. rewrite dd_app, cv_app, IH.
+    + cbn [cv fold_left]. lia.
+    + assert (n / 10 < n) by (apply N.div_lt; lia). lia.
+Qed.
+
+Lemma dd_digits f : forall n acc, forallb sp_digit acc = true -> forallb sp_digit (ddf f n acc) = true.
+Proof.
+  induction f as [|f IH]; intros n acc Ha; [exact Ha|]. cbn [SchemaTruth.dec_digits_fuel]. cbv zeta.
+  assert (Hd : forallb sp_digit ((48 + n mod 10) :: acc) = true).
+  { cbn [forallb]. rewrite Ha, andb_true_r. unfold sp_digit.
+    pose proof (N.mod_lt n 10 ltac:(lia)). lia. }
+  destruct (n / 10 =? 0); [exact Hd|]. now apply IH.
+Qed.
+
+Lemma dd_nonempty f n acc : ddf (S f) n acc <> [].
+Proof.
+  cbn [SchemaTruth.dec_digits_fuel]. cbv zeta. destruct (n / 10 =? 0); [discriminate|].
+  rewrite dd_app. intros H. apply app_eq_nil in H. destruct H as [_ H]. discriminate.
+Qed.
+
+Lemma dec_text_facts k :
+  forallb sp_digit (dec_text k) = true /\ dec_text k <> [] /\ count_value (dec_text k) = N.of_nat k.
+Proof.
+  unfold SchemaTruth.dec_text. split; [now apply dd_digits|]. split; [apply dd_nonempty|].
+  rewrite count_value_ascii by now apply dd_digits. apply dd_val. lia.
+Qed.
+
+Lemma span_digits ds rest : forallb sp_digit ds = true -> span is_nd (ds ++ 41 :: rest) = (ds, 41 :: rest).
+Proof.
+  induction ds as [|d r IH]; intros H.
+  - cbn [app span]. change (is_nd 41) with false. reflexivity.
+  - cbn [forallb] in H. apply andb_true_iff in H. destruct H as [Hd Hr]. cbn [app span].
+    unfold is_nd at 1. change (ascii_digit d) with (sp_digit d). rewrite Hd. cbn [orb]. now rewrite (IH Hr).
+Qed.
+
+Lemma repeat_tail_count k rest : repeat_tail (40 :: dec_text k ++ 41 :: rest) = Some (N.of_nat k, rest).
+Proof.
+  destruct (dec_text_facts k) as (Hd & Hne & Hv). unfold repeat_tail. change (40 =? 40) with true. cbv iota.
+  rewrite (span_digits _ _ Hd). destruct (dec_text k) eqn:E; [contradiction|].
+  change (41 =? 41) with true. cbv iota. now rewrite Hv.
+Qed.
+
+(* ---- the scanner on a string that starts with a match ---- *)
+Lemma scan_fuel_irrel ci rc uc f1 : forall f2 s, (length s <= f1)%nat -> (length s <= f2)%nat ->
+  scan ci rc uc f1 s = scan ci rc uc f2 s.
+Proof.
+  induction f1 as [|f1 IH]; intros f2 s H1 H2.
+  { destruct s; [destruct f2; reflexivity|simpl in H1; lia]. }
+  destruct s as [|c t]; [destruct f2; reflexivity|].
+  destruct f2 as [|f2]; [simpl in H2; lia|]. cbn [scan].
+  destruct (token_at ci rc uc (c :: t)) as [[e rest]|] eqn:E.
+  - f_equal. pose proof (token_at_shorter _ _ _ _ _ _ E) as Hsh.
+    apply IH; clear - H1 H2 Hsh; simpl in *; lia.
+  - f_equal. apply IH; clear - H1 H2; simpl in *; lia.
+Qed.
+
+Lemma items_tok s e rest : token_at false cls cls s = Some (e, rest) -> dec_items s = Tok e :: dec_items rest.
+Proof.
+  intros H. pose proof (token_at_shorter _ _ _ _ _ _ H) as Hsh.
+  destruct s as [|c t]; [discriminate|]. rewrite !dec_items_eq. unfold dscan.
+  cbn [length scan]. rewrite H. f_equal.
+  apply scan_fuel_irrel; [clear - Hsh; simpl in Hsh; lia|apply le_n].
+Qed.
+
+(* what may follow a run of data characters: nothing, or a character that neither continues nor counts it *)
+Definition stop (rest : list N) : bool :=
+  match rest with [] => true | d :: _ => negb (incls d) && negb (d =? 40) end.
+
+Lemma span_repeat c k rest : incls c = true -> stop rest = true ->
+  span incls (repeat c k ++ rest) = (repeat c k, rest).
+Proof.
+  intros Hc Hs. induction k as [|k IH].
+  - cbn [repeat app]. destruct rest as [|d r]; [reflexivity|]. cbn [span stop] in *.
+    apply andb_true_iff in Hs. destruct Hs as [Hd _]. apply negb_true_iff in Hd. now rewrite Hd.
+  - cbn [repeat app span]. now rewrite Hc, IH.
+Qed.
+
+Lemma repeat_tail_stop c k rest : incls c = true -> stop rest = true -> repeat_tail (repeat c k ++ rest) = None.
+Proof.
+  intros Hc Hs. unfold repeat_tail. destruct k as [|k].
+  - cbn [repeat app]. destruct rest as [|d r]; [reflexivity|]. cbn [stop] in Hs.
+    apply andb_true_iff in Hs. destruct Hs as [_ Hd]. apply negb_true_iff in Hd. now rewrite Hd.
+  - cbn [repeat app]. now rewrite (incls_not_paren _ Hc).
+Qed.
+
+Lemma token_rep c t n rest : incls c = true -> repeat_tail t = Some (n, rest) ->
+  token_at false cls cls (c :: t) = Some (E KDigit (repeat c (N.to_nat n)), rest).
+Proof. intros Hc Hr. unfold token_at. cbn [up]. cbv zeta. rewrite Hr. mem_split Hc; reflexivity. Qed.
+
+Lemma items_run c rep k rest : incls c = true -> stop rest = true -> (1 <= k)%nat ->
+  dec_items (prun c rep k ++ rest) = Tok (E KDigit (repeat c k)) :: dec_items rest.
+Proof.
+  intros Hc Hs Hk. destruct k as [|k]; [lia|]. apply items_tok.
+  unfold SchemaTruth.run. destruct rep.
+  - cbn [app]. rewrite <- app_assoc. cbn [app].
+    rewrite (token_rep c _ _ _ Hc (repeat_tail_count (S k) rest)), Nat2N.id. reflexivity.
+  - cbn [repeat app]. rewrite (token_cls c _ Hc (repeat_tail_stop c k rest Hc Hs)).
+    now rewrite (span_repeat c k rest Hc Hs).
+Qed.
+
+Lemma items_S t : dec_items (83 :: t) = Tok (E KSign [83]) :: dec_items t.
+Proof. apply items_tok. reflexivity. Qed.
+Lemma items_V t : dec_items (86 :: t) = Tok (E KDecimal [86]) :: dec_items t.
+Proof. apply items_tok. reflexivity. Qed.
+
+(* ---- the elements of a printed picture ---- *)
+Definition num_elems (s : bool) (m n : nat) : list elt :=
+  (if s then [E KSign [83]] else [])
+  ++ (match m with O => [] | S _ => [E KDigit (repeat 57 m)] end)
+  ++ (match n with O => [] | S _ => [E KDecimal [86]; E KDigit (repeat 57 n)] end).
+
+Lemma num_items s m n ri rf : (1 <= m + n)%nat ->
+  dec_items (pic_text (SchemaTruth.PNum s m n ri rf)) = map Tok (num_elems s m n).
+Proof.
+  intros Hmn. unfold SchemaTruth.pic_text, num_elems.
+  assert (Hfrac : forall n', dec_items (match n' with O => [] | S _ => 86 :: prun 57 rf n' end)
+                  = map Tok (match n' with O => [] | S _ => [E KDecimal [86]; E KDigit (repeat 57 n')] end)).
+  { intros [|n']; [reflexivity|]. rewrite items_V. rewrite <- (app_nil_r (prun 57 rf (S n'))).
+    rewrite items_run; [reflexivity|reflexivity|reflexivity|lia]. }
+  assert (Hstop : stop (match n with O => [] | S _ => 86 :: prun 57 rf n end) = true) by (destruct n; reflexivity).
+  assert (Hint : dec_items (prun 57 ri m ++ match n with O => [] | S _ => 86 :: prun 57 rf n end)
+                 = map Tok ((match m with O => [] | S _ => [E KDigit (repeat 57 m)] end)
+                            ++ (match n with O => [] | S _ => [E KDecimal [86]; E KDigit (repeat 57 n)] end))).
+  { destruct m as [|m'].
+    - cbn [SchemaTruth.run app]. apply Hfrac.
+    - rewrite items_run; [|reflexivity|exact Hstop|lia]. cbn [app map]. now rewrite Hfrac. }
+  destruct s.
+  - cbn [app]. rewrite items_S, Hint. reflexivity.
+  - cbn [app]. exact Hint.
+Qed.
+
+Lemma text_items alpha k rep : (1 <= k)%nat ->
+  dec_items (pic_text (SchemaTruth.PText alpha k rep)) = [Tok (E KDigit (repeat (if alpha then 65 else 88) k))].
+Proof.
+  intros Hk. unfold SchemaTruth.pic_text. rewrite <- (app_nil_r (prun _ rep k)).
+  rewrite items_run; [reflexivity|destruct alpha; reflexivity|reflexivity|exact Hk].
+Qed.
+
+Lemma ends_map_tok es : es <> [] -> ends_with_tok (map Tok es) = true.
+Proof.
+  induction es as [|e es IH]; [contradiction|]. intros _. cbn [map ends_with_tok].
+  destruct es as [|e' es']; [reflexivity|]. apply IH. discriminate.
+Qed.
+Lemma elems_map_tok es : elems (map Tok es) = es.
+Proof. induction es as [|e es IH]; [reflexivity|]. cbn [map elems]. now rewrite IH. Qed.
+
+(* ---- what Representation.parse makes of a printed picture ---- *)
+Lemma size_digit c k r acc : size_loop (E KDigit (repeat c (S k)) :: r) acc = size_loop r (acc + S k)%nat.
+Proof. cbn [repeat size_loop length]. now rewrite repeat_length. Qed.
+
+Lemma size_sign r acc : size_loop (E KSign [83] :: r) acc = size_loop r (acc + 1)%nat.
+Proof. reflexivity. Qed.
+Lemma size_V r acc : size_loop (E KDecimal [86] :: r) acc = size_loop r (acc + 0)%nat.
+Proof. reflexivity. Qed.
+
+Lemma num_size s m n : size_loop (num_elems s m n) 0 = Ok ((if s then 1 else 0) + m + n)%nat.
+Proof.
+  unfold num_elems. destruct s, m as [|m], n as [|n]; cbn [app];
+    repeat (rewrite size_sign || rewrite size_V || rewrite size_digit); cbn [size_loop]; f_equal; lia.
+Qed.
+
+Definition num_groups (s : bool) (m n : nat) : groups :=
+  {| g_sign := if s then [83] else []; g_int := repeat 57 m;
+     g_sep := match n with O => [] | S _ => [86] end; g_frac := repeat 57 n |}.
+
+Lemma num_groups_eq s m n : digit_groups (num_elems s m n) = num_groups s m n.
+Proof. destruct s, m, n; reflexivity. Qed.
+
+Lemma num_zoned s m n : (1 <= m + n)%nat ->
+  zoned_decimal (num_elems s m n) ((if s then 1 else 0) + m + n) = true.
+Proof.
+  intros H. unfold zoned_decimal. rewrite num_groups_eq. cbv zeta. cbn [num_groups g_sign g_int g_sep g_frac].
+  rewrite !all9_nines.
+  assert (H0 : Nat.eqb ((if s then 1 else 0) + m + n) 0 = false) by (apply Nat.eqb_neq; destruct s; lia).
+  rewrite H0. assert (He : has_edit (num_elems s m n) = false) by (destruct s, m, n; reflexivity). rewrite He.
+  destruct s, n; reflexivity.
+Qed.
+
+Lemma num_nonempty s m n : (1 <= m + n)%nat -> num_elems s m n <> [].
+Proof. unfold num_elems. destruct s, m, n; cbn; try discriminate. lia. Qed.
+
+Lemma num_parse s m n ri rf : (1 <= m + n)%nat ->
+  dec_parse (pic_text (SchemaTruth.PNum s m n ri rf)) =
+  Some (Ok {| p_elems := num_elems s m n; p_size := (if s then 1 else 0) + m + n;
+              p_groups := num_groups s m n; p_zoned := true |}).
+Proof.
+  intros H. unfold dec_parse. rewrite dec_normalize_eq, (num_items s m n ri rf H).
+  rewrite (ends_map_tok _ (num_nonempty s m n H)), elems_map_tok, num_size, num_groups_eq, (num_zoned s m n H).
+  reflexivity.
+Qed.
+
+Definition text_char (alpha : bool) : N := if alpha then 65 else 88.
+
+Lemma text_parse alpha k rep : (1 <= k)%nat ->
+  dec_parse (pic_text (SchemaTruth.PText alpha k rep)) =
+  Some (Ok {| p_elems := [E KDigit (repeat (text_char alpha) k)]; p_size := k;
+              p_groups := {| g_sign := []; g_int := repeat (text_char alpha) k; g_sep := []; g_frac := [] |};
+              p_zoned := false |}).
+Proof.
+  intros H. unfold dec_parse. rewrite dec_normalize_eq, (text_items alpha k rep H).
+  fold (text_char alpha). destruct k as [|k]; [lia|].
+  cbn [ends_with_tok is_tok elems]. rewrite size_digit. cbn [size_loop].
+  assert (Hg : digit_groups [E KDigit (repeat (text_char alpha) (S k))]
+               = {| g_sign := []; g_int := repeat (text_char alpha) (S k); g_sep := []; g_frac := [] |}) by reflexivity.
+  assert (Hz : zoned_decimal [E KDigit (repeat (text_char alpha) (S k))] (0 + S k) = false).
+  { unfold zoned_decimal. rewrite Hg. cbv zeta. cbn [g_sign g_int g_sep g_frac repeat all9 forallb].
+    destruct alpha; cbn [text_char]; [change (65 =? 57) with false|change (88 =? 57) with false];
+      cbn [andb]; now rewrite ?andb_false_r. }
+  rewrite Hg, Hz. reflexivity.
+Qed.
+
+(* ---- the generator side on a printed picture ---- *)
+Definition pic_nonempty (p : SchemaTruth.fpic) : bool :=
+  match p with
+  | SchemaTruth.PNum _ m n _ _ => (1 <=? m + n)%nat
+  | SchemaTruth.PText _ k _ => (1 <=? k)%nat
+  end.
+
+Lemma digit_nolow ds : forallb sp_digit ds = true -> existsb lowtrig ds = false.
+Proof.
+  induction ds as [|d r IH]; [reflexivity|]. cbn [forallb existsb]. intros H.
+  apply andb_true_iff in H. destruct H as [Hd Hr]. rewrite (IH Hr), orb_false_r.
+  unfold sp_digit in Hd. unfold lowtrig, mem. cbn [existsb]. lia.
+Qed.
+
+Lemma repeat_nolow c k : lowtrig c = false -> existsb lowtrig (repeat c k) = false.
+Proof. intros H. induction k as [|k IH]; [reflexivity|]. cbn [repeat existsb]. now rewrite H, IH. Qed.
+
+Lemma run_nolow c rep k : lowtrig c = false -> existsb lowtrig (prun c rep k) = false.
+Proof.
+  intros H. unfold SchemaTruth.run. destruct k as [|k]; [reflexivity|]. destruct rep.
+  - cbn [existsb]. rewrite H, existsb_app.
+    destruct (dec_text_facts (S k)) as (Hd & _). rewrite (digit_nolow _ Hd). reflexivity.
+  - now apply repeat_nolow.
+Qed.
+
+Lemma pic_nolow p : kb_lower (pic_text p) = false.
+Proof.
+  unfold kb_lower. change (fun c : N => mem c [97; 98; 99; 100; 112; 114; 115; 118; 120; 122; 383]) with lowtrig.
+  destruct p as [s m n ri rf|alpha k rep]; unfold SchemaTruth.pic_text.
+  - rewrite !existsb_app, (run_nolow 57 ri m) by reflexivity.
+    assert (Hs : existsb lowtrig (if s then [83] else []) = false) by (destruct s; reflexivity). rewrite Hs.
+    destruct n as [|n]; [reflexivity|]. cbn [existsb orb]. now rewrite (run_nolow 57 rf (S n)).
+  - apply run_nolow. destruct alpha; reflexivity.
+Qed.
+
+Lemma printed_generator p es : dec_normalize (pic_text p) = Some (Ok es) -> gen_normalize (pic_text p) = Some (Ok es).
+Proof.
+  rewrite gen_normalize_eq, dec_normalize_eq, (items_same _ (pic_nolow p)).
+  destruct (ends_with_tok (dec_items (pic_text p))) eqn:E; [|discriminate].
+  intros H. injection H as <-. pose proof (ends_elems _ E) as Hne.
+  destruct (elems (dec_items (pic_text p))); [contradiction|reflexivity].
+Qed.
+
+Lemma printed_elements p : pic_nonempty p = true ->
+  exists es, dec_normalize (pic_text p) = Some (Ok es) /\ gen_normalize (pic_text p) = Some (Ok es) /\
+             es = match p with
+                  | SchemaTruth.PNum s m n _ _ => num_elems s m n
+                  | SchemaTruth.PText alpha k _ => [E KDigit (repeat (text_char alpha) k)]
+                  end.
+Proof.
+  intros H. eexists. split; [|split; [apply printed_generator|reflexivity]].
+  - rewrite dec_normalize_eq. destruct p as [s m n ri rf|alpha k rep]; cbn [pic_nonempty] in H; apply Nat.leb_le in H.
+    + rewrite (num_items s m n ri rf H), (ends_map_tok _ (num_nonempty s m n H)), elems_map_tok. reflexivity.
+    + rewrite (text_items alpha k rep H). reflexivity.
+  - rewrite dec_normalize_eq. destruct p as [s m n ri rf|alpha k rep]; cbn [pic_nonempty] in H; apply Nat.leb_le in H.
+    + rewrite (num_items s m n ri rf H), (ends_map_tok _ (num_nonempty s m n H)), elems_map_tok. reflexivity.
+    + rewrite (text_items alpha k rep H). reflexivity.
+Qed.
+
+(* finding 4, exactly: the generator calls a printed numeric picture numeric iff no digit run is written with a count *)
+Lemma run_svp9 rep k : forallb upper_in_SVP9 (prun 57 rep k) = negb (rep && negb (Nat.eqb k 0)).
+Proof.
+  unfold SchemaTruth.run. destruct k as [|k]; [now rewrite andb_false_r|]. destruct rep; [reflexivity|].
+  cbn [andb negb]. induction (S k) as [|j IH]; [reflexivity|]. cbn [repeat forallb]. exact IH.
+Qed.
+
+Lemma run_nonempty c rep k : (1 <= k)%nat -> prun c rep k <> [].
+Proof. destruct k as [|k]; [lia|]. intros _. unfold SchemaTruth.run. destruct rep; discriminate. Qed.
+
+Lemma gen_numeric_forallb s : s <> [] -> gen_numeric s = forallb upper_in_SVP9 s.
+Proof. destruct s; [contradiction|reflexivity]. Qed.
+
+Lemma printed_numeric_class s m n ri rf : (1 <= m + n)%nat ->
+  gen_numeric (pic_text (SchemaTruth.PNum s m n ri rf)) = negb (SchemaTruth.written_with_repeat (SchemaTruth.PNum s m n ri rf)).
+Proof.
+  intros H. rewrite gen_numeric_forallb.
+  - unfold SchemaTruth.pic_text, SchemaTruth.written_with_repeat. rewrite !forallb_app, run_svp9.
+    assert (Hs : forallb upper_in_SVP9 (if s then [83] else []) = true) by (destruct s; reflexivity). rewrite Hs.
+    rewrite negb_orb. cbn [andb]. f_equal.
+    destruct n as [|n]; [now rewrite andb_false_r|]. cbn [forallb]. rewrite run_svp9. reflexivity.
+  - unfold SchemaTruth.pic_text. intros E. apply app_eq_nil in E. destruct E as [_ E].
+    apply app_eq_nil in E. destruct E as [E1 E2].
+    destruct m as [|m]; [|now apply (run_nonempty 57 ri (S m)) in E1; [|lia]].
+    destruct n as [|n]; [lia|discriminate].
+Qed.
+
+Lemma printed_text_class alpha k rep : (1 <= k)%nat -> gen_numeric (pic_text (SchemaTruth.PText alpha k rep)) = false.
+Proof.
+  intros H. destruct k as [|k]; [lia|]. unfold SchemaTruth.pic_text, SchemaTruth.run.
+  destruct rep, alpha; reflexivity.
+Qed.
+
+(* ================= the decoder half under the decoder's own findings only ================= *)
+(* the part of known_bad that concerns the decoder-side scanner and zoned_decimal: findings 6, 1, 2, 8, 7
+   restricted to estruct; findings 3, 4, 5 (generator side) play no role *)
+Definition kb_dec (s : list N) : bool :=
+  kb_nd s
+  || (ends_with_tok (dec_items s) && existsb bad_skip (dec_items s))
+  || existsb empty_elt (elems (dec_items s))
+  || kb_lastonly s || kb_zeropos s.
+
+Lemma kb_dec_weaker s : known_bad s = false -> kb_dec s = false.
+Proof.
+  intros H. destruct (known_bad_false s H) as (_ & Hnd & _ & Hskip & Hzero & Hlo & Hzp & _).
+  unfold kb_skip in Hskip. apply orb_false_iff in Hskip. destruct Hskip as [Hskip _].
+  unfold kb_zero in Hzero. apply orb_false_iff in Hzero. destruct Hzero as [Hzero _].
+  unfold kb_dec. now rewrite Hnd, Hskip, Hzero, Hlo, Hzp.
+Qed.
+
+Lemma kb_dec_false s : kb_dec s = false ->
+  kb_nd s = false /\ (ends_with_tok (dec_items s) && existsb bad_skip (dec_items s)) = false /\
+  existsb empty_elt (elems (dec_items s)) = false /\ kb_lastonly s = false /\ kb_zeropos s = false.
+Proof.
+  unfold kb_dec. intros H. repeat (apply orb_false_iff in H; destruct H as [H ?]). repeat split; assumption.
+Qed.
+
+Lemma dec_summary_dec s r : kb_dec s = false -> dec_parse s = Some (Ok r) ->
+  exists v, sp_parse s = Some v /\ p_size r = positions v /\ length (g_int (p_groups r)) = int_digits v /\
+            length (g_frac (p_groups r)) = frac_digits v /\ p_zoned r = numeric v /\
+            forallb (fun c => negb (sp_foreign c)) s = true.
+Proof.
+  intros Hkb Hr. destruct (kb_dec_false s Hkb) as (Hnd & Hskip & Hzero & Hlo & Hzp).
+  pose proof (dec_parse_ok _ _ Hr) as Hend. rewrite Hend in Hskip. cbn [andb] in Hskip.
+  pose proof (scan_no_fuel false cls cls (length s) s (le_n _)) as Hfuel.
+  set (l := dec_items s) in *.
+  assert (Hcl : clean l = true) by (apply clean_of; assumption).
+  assert (Hwf : forallb wf_item l = true) by (unfold l; rewrite dec_items_eq; apply scan_wf).
+  assert (Hnond : nond s = true) by (apply existsb_false_forallb; exact Hnd).
+  assert (Hexp : sp_expand s = Some (flat l)).
+  { destruct s as [|c t]; [discriminate|]. unfold sp_expand, l. rewrite dec_items_eq.
+    apply clean_expand; [apply le_n|now left|exact Hcl|exact Hnond]. }
+  pose proof (size_clean l Hwf Hcl 0%nat) as Hsize. cbn [Nat.add] in Hsize.
+  unfold dec_parse in Hr. rewrite dec_normalize_eq in Hr. fold l in Hr. rewrite Hend, Hsize in Hr. injection Hr as <-.
+  exists (sp_summary (flat l)). unfold sp_parse. rewrite Hexp.
+  destruct (groups_flat l Hwf Hcl) as (_ & G2 & G3).
+  unfold kb_lastonly in Hlo. rewrite Hexp in Hlo.
+  unfold kb_zeropos, sp_parse in Hzp. rewrite Hexp in Hzp. cbn [option_map sp_summary positions] in Hzp.
+  cbn [option_map p_size p_groups p_zoned sp_summary positions int_digits frac_digits numeric].
+  repeat split; try assumption.
+  - rewrite (zoned_numeric l _ Hwf Hcl Hlo). now rewrite Hzp.
+  - destruct s as [|c t]; [reflexivity|]. unfold sp_expand in Hexp. eapply sp_no_foreign; [|exact Hexp]. exact I.
+Qed.
+
+(* ---- the statements Props/C13.v exports for printed pictures ---- *)
+Lemma printed_numeric s m n ri rf : (1 <= m + n)%nat ->
+  exists r, dec_parse (pic_text (SchemaTruth.PNum s m n ri rf)) = Some (Ok r) /\
+    p_size r = ((if s then 1 else 0) + m + n)%nat /\
+    g_sign (p_groups r) = (if s then [83] else []) /\
+    length (g_int (p_groups r)) = m /\ length (g_frac (p_groups r)) = n /\
+    g_int (p_groups r) = repeat 57 m /\ g_frac (p_groups r) = repeat 57 n /\
+    p_zoned r = true.
+Proof.
+  intros H. eexists. split; [exact (num_parse s m n ri rf H)|].
+  cbn [p_size p_groups p_zoned num_groups g_sign g_int g_frac]. rewrite !repeat_length. repeat split; reflexivity.
+Qed.
+
+Lemma printed_text alpha k rep : (1 <= k)%nat ->
+  exists r, dec_parse (pic_text (SchemaTruth.PText alpha k rep)) = Some (Ok r) /\
+    p_size r = k /\ p_zoned r = false /\ g_sign (p_groups r) = [] /\ g_frac (p_groups r) = [].
+Proof.
+  intros H. eexists. split; [exact (text_parse alpha k rep H)|]. repeat split; reflexivity.
+Qed.
+
+Lemma wf_pic_nonempty p : SchemaTruth.wf_pic p = true -> pic_nonempty p = true.
+Proof.
+  destruct p as [s m n ri rf|alpha k rep]; cbn [SchemaTruth.wf_pic pic_nonempty]; intros H;
+    [apply andb_true_iff in H; tauto|exact H].
+Qed.
